@@ -161,6 +161,25 @@ def pipeline_crashes(sig, muts, alias='default'):
     return None
 
 
+def legacy_unique_together(model):
+    """put the database and the stored signature into the state old releases left behind: unique_together is listed
+    for `model`, but was never applied (no unique index, flag off) - only a ChangeMeta applies it"""
+    from django.db import connection
+    from django_evolution.models import Version
+    table = 'vapp_%s' % model.lower()
+    with connection.cursor() as cur:
+        cur.execute('PRAGMA index_list("%s")' % table)
+        names = [r[1] for r in cur.fetchall() if r[2] and not r[1].startswith('sqlite_autoindex')]
+        for n in names:
+            cur.execute('DROP INDEX "%s"' % n)
+    v = Version.objects.current_version()
+    s = v.signature
+    ms = s.get_app_sig('vapp').get_model_sig(model)
+    ms._unique_together_applied = False
+    v.signature = s
+    v.save()
+
+
 def run_case(rep, prepared=True):
     """rep: spec0, valid, evolution — the database is at V0 and the V1 models are installed"""
     if not prepared:
@@ -168,6 +187,8 @@ def run_case(rep, prepared=True):
         evorig.clear_evolutions()
         evorig.install_models(rep['spec0'])
         r = evorig.run_evolver()
+        if rep.get('legacy_ut'):
+            legacy_unique_together(rep['legacy_ut'])
         sig0 = vapp_sig()
         rs = sigs.real_simulate(sig0, 'vapp', [sigs.real_mutation(m) for m in rep['valid']])
         spec1 = dbrig.spec_from_sig(rs[1])
@@ -296,6 +317,16 @@ _FKIDX = {'t': 'ChangeField', 'model': 'Beta', 'field': 'ref', 'ftype': None, 'i
           'attrs': [['db_index', 'false']]}
 
 
+def _legacy():
+    return {'apps': [{'id': 'vapp', 'models': [
+        dict(_m('Alpha', [_f('a', 'IntegerField'), _f('b', 'IntegerField'), _f('c', 'IntegerField', null=True)]),
+             unique_together=[['a', 'b']])]}]}
+
+
+_DELC = {'t': 'DeleteField', 'model': 'Alpha', 'field': 'c'}
+_UT = {'t': 'ChangeMeta', 'model': 'Alpha', 'prop': 'unique_together', 'py_value': [('a', 'b')]}
+
+
 def _text():
     return {'apps': [{'id': 'vapp', 'models': [_m('Alpha', [_f('notes', 'CharField', max_length=50, null=True)])]}]}
 
@@ -348,6 +379,12 @@ FAMILY = [
      'evolution': [_ADD]},
     {'spec0': _rel(), 'valid': [_ADD, dict(_FKIDX, field='twin')],
      'perturbation': 'family:drop ChangeField(db_index=False) of a OneToOneField', 'evolution': [_ADD]},
+    # a legacy database (unique_together listed in the stored signature but never applied): only the ChangeMeta
+    # applies it, so an evolution without it leaves a residual difference - whatever else it deletes or adds
+    {'spec0': _legacy(), 'legacy_ut': 'Alpha', 'valid': [_DELC, _UT], 'evolution': [_DELC],
+     'perturbation': 'family:legacy unique_together, ChangeMeta dropped next to a DeleteField'},
+    {'spec0': _legacy(), 'legacy_ut': 'Alpha', 'valid': [_ADD, _UT], 'evolution': [_ADD],
+     'perturbation': 'family:legacy unique_together, ChangeMeta dropped next to an AddField'},
     # a mutation the backend cannot apply at all (table comments on SQLite) next to a mutation that leaves a
     # residual difference: the run must be refused, whatever the reason given
     {'spec0': _two(), 'valid': [_ADD], 'perturbation': 'family:unsupported Meta property next to a misnamed AddField',
@@ -366,6 +403,10 @@ def model_verdict(ctx, rep):
     out = ctx.driver.ask([{'op': 'simulate', 'sig': rep['stored_abs'], 'ctx': {'app': 'vapp'},
                            'mutations': [sigs.model_mutation(m) for m in rep['evolution']],
                            'flags': {'rename_app_label_fixed': bool(ctx.variant.get('rename_app_label_fixed'))}}])[0]
+    if out and 'ok' in out:
+        # the model's own end state of the simulation: the residue is judged from it, not from the real
+        # simulation's result (which is part of what is under test)
+        rep['model_sim_abs'] = dict(out['ok'], apps=[a for a in out['ok']['apps'] if a['id'] == 'vapp'])
     return out.get('err') if out else None
 
 
@@ -383,8 +424,9 @@ def judge(ctx, rep):
         # must see no residue either: the real Diff is the thing under test here, not the judge
         if rep.get('reaches_target') and ctx.driver and 'sim_abs' in rep:
             from .c05 import empty
-            outs = ctx.driver.ask([{'op': 'diff', 'old': rep['sim_abs'], 'new': rep['target_abs']},
-                                   {'op': 'diff', 'old': rep['target_abs'], 'new': rep['sim_abs']}])
+            sim_abs = rep.get('model_sim_abs', rep['sim_abs'])
+            outs = ctx.driver.ask([{'op': 'diff', 'old': sim_abs, 'new': rep['target_abs']},
+                                   {'op': 'diff', 'old': rep['target_abs'], 'new': sim_abs}])
             for o in outs:
                 d = (o or {}).get('diff')
                 if d is not None and not empty(d):
